@@ -5,6 +5,8 @@ use serde_json::Value;
 pub mod c01;
 pub mod c02;
 pub mod c03;
+pub mod c04;
+pub mod c05;
 pub mod c06;
 pub mod c07;
 pub mod c08;
@@ -28,6 +30,8 @@ pub fn run(prop: &str, opts: &Opts) -> Vec<Report> {
         "C01" => c01::run(opts),
         "C02" => c02::run(opts),
         "C03" => c03::run(opts),
+        "C04" => c04::run(opts),
+        "C05" => c05::run(opts),
         "C06" => c06::run(opts),
         "C07" => c07::run(opts),
         "C08" => c08::run(opts),
@@ -52,6 +56,8 @@ pub fn replay(prop: &str, case: &Value) -> ReplayResult {
         "C01" => c01::replay(case),
         "C02" => c02::replay(case),
         "C03" => c03::replay(case),
+        "C04" => c04::replay(case),
+        "C05" => c05::replay(case),
         "C06" => c06::replay(case),
         "C07" => c07::replay(case),
         "C08" => c08::replay(case),
@@ -74,6 +80,7 @@ pub fn replay(prop: &str, case: &Value) -> ReplayResult {
 pub fn child(prop: &str, spec: &str) {
     match prop {
         "C03" => c03::child(spec),
+        "C05" => c05::child_dispatch(spec),
         "C07" => c07::child(spec),
         _ => crate::explore::machinery(&format!("no child mode for {}", prop)),
     }
